@@ -40,6 +40,10 @@ Theorem source_termlist_is_model :
 Proof. exact (conj LehmannGenProofs.gen_add_term_is_model LehmannGenProofs.gen_termlist_eval_is_model). Qed.
 Print Assumptions source_termlist_is_model.
 
+(** the statement lists of Susceptibility::operator()(z) / of_tau are tied up to [LehmannGenEquiv.vequiv] (same value returned by the
+    interpreter value_by for every state of the object), not as the very same list: the source may e.g. invert an if / else or merge
+    the nested tests.  (Until this statement read [gen_susc_value_z K NO = model_susc_value_z K NO]; the theorems below use the
+    lists only through value_by.) *)
 Theorem source_susc_eval_is_model :
   forall (K : Type) (NO : numops K),
     (forall R P tau beta, gen_susc_term_tau K NO R P tau beta = susc_term_tau K NO R P tau beta) /\
@@ -47,7 +51,7 @@ Theorem source_susc_eval_is_model :
      (forall t zw beta a, gen_suscpart_z K NO t zw beta a = susc_part_eval K NO t zw beta a) /\
      (forall t zw beta a, gen_suscpart_tau K NO t zw beta a = susc_part_tau K NO t zw) /\
      (forall n, gen_suscpart_matsubara n = susc_matsubara_mult n)) /\
-    (gen_susc_value_z K NO = model_susc_value_z K NO /\ gen_susc_value_tau K NO = model_susc_value_tau K NO /\
+    (LehmannGenEquiv.vequiv (gen_susc_value_z K NO) (model_susc_value_z K NO) /\ LehmannGenEquiv.vequiv (gen_susc_value_tau K NO) (model_susc_value_tau K NO) /\
      (forall n, gen_susc_matsubara n = susc_total_matsubara_mult n)) /\
     (gen_ea_first = 0 /\ gen_ea_cmp = CmpLt /\ gen_ea_op = AccPlus /\
      forall coeff w i, gen_ea_summand K NO coeff w i = nmul K NO (coeff i i) (w i)).
